@@ -66,6 +66,7 @@ package forwarder
 //@   modifies bank, events, fwdcalls, fwd_ctrl, fwd_pkt, out_n, out_kind, out_cctp, out_cctpc, out_hyp, out_send
 //@   ensures[C05] fwdcalls <= old(fwdcalls) + 1
 //@   ensures[C06] fwdcalls > old(fwdcalls) ==> fwd_pkt == packet
+//@   requires[C01] bankNonneg(bank)
 //@   ensures[C05] fwdcalls > old(fwdcalls) ==> packet != nil && packet.Forwarding != nil && mapHas(f.router.routes, packet.Forwarding.ProtocolId) && fwd_ctrl == mapGet(f.router.routes, packet.Forwarding.ProtocolId)
 //@   ensures[C05] packet != nil && packet.Forwarding != nil && !mapHas(f.router.routes, packet.Forwarding.ProtocolId) ==> err != nil && fwdcalls == old(fwdcalls)
 //@   ensures[C08] packet != nil && packet.Forwarding != nil && packet.Forwarding.Attributes != nil && ref(fwdAttr(packet)) != 0 &&
